@@ -9,7 +9,7 @@ from .raftlog import ack_calls, ae_region
 
 
 def _is_clock_call(n):
-    return isinstance(n, ast.Call) and isinstance(n.func, ast.Name) and 'onotonic' in n.func.id
+    return U.is_clock_call(n)
 
 
 def _deadline_writes(ctx, func, cfg):
